@@ -7,13 +7,16 @@
                   regenerated escape arms (Json/TokTie.v)
      white space  tokenizer_ws_eq_std
      integers     int_literal_eq; neg_zero_refuted; int_out_of_range_refuted
+     classification  object_classification_eq (+ _key_order_refuted): the key tests of
+                  both loaders' jtoken_to_runtime_object, regenerated (Json/ClassifyTie.v)
    NOT proved (stated in DESIGN.md section 6, C14):
-     object_classification_eq, loaders_agree_partial — need Json/StreamLoad.v;
-       covered by the two-build differential of tools/props/c14.py;
+     loaders_agree_partial — needs Json/StreamLoad.v (construction of the objects after
+       classification); covered by the two-build differential of tools/props/c14.py;
      non-integer literals: decimal->f32 (tokenizer) vs decimal->f64->f32
        (serde_json) is an oracle on both sides; double rounding is not excluded. *)
 From Ink.Data Require Import Types.
-From Ink.Json Require Import JsonStd JsonStdProofs Tokenizer TokenizerProofs TokTie.
+From Ink.Json Require Import JsonStd JsonStdProofs TokenizerCore Tokenizer TokenizerProofs TokTie.
+From Ink.Json Require Import Classify ClassifyProofs ClassifyTie.
 
 (* (1) every valid string literal is decoded as RFC 8259 says *)
 Theorem tokenizer_string_eq_std :
@@ -57,12 +60,12 @@ Print Assumptions serde_output_is_string_body.
 (* (2) white space: on RFC 8259 white space both readers skip the same characters *)
 Theorem tokenizer_ws_eq_std :
   forall w c r, all_json_ws w -> is_unicode_ws c = false ->
-    Tokenizer.read (tok_new (w ++ c :: r)) = (IOk c, mkTok r None true)
+    TokenizerCore.read (tok_new (w ++ c :: r)) = (IOk c, mkTok r None true)
     /\ JsonStd.skip_ws (w ++ c :: r) = c :: r.
 Proof. exact ws_eq_std_lemma. Qed.
 Check tokenizer_ws_eq_std :
   forall w c r, all_json_ws w -> is_unicode_ws c = false ->
-    Tokenizer.read (tok_new (w ++ c :: r)) = (IOk c, mkTok r None true)
+    TokenizerCore.read (tok_new (w ++ c :: r)) = (IOk c, mkTok r None true)
     /\ JsonStd.skip_ws (w ++ c :: r) = c :: r.
 Print Assumptions tokenizer_ws_eq_std.
 
@@ -70,7 +73,7 @@ Print Assumptions tokenizer_ws_eq_std.
 Theorem int_literal_eq :
   forall f32_parse f32_of_decimal neg ds sep rest fuel depth,
     i32_literal neg ds -> is_separator sep = true ->
-    Tokenizer.read_number f32_parse (tok_new (int_literal_text neg ds ++ sep :: rest))
+    TokenizerCore.read_number f32_parse (tok_new (int_literal_text neg ds ++ sep :: rest))
       = (IOk (NInt (int_literal_value neg ds)), mkTok rest (Some sep) true)
     /\ JsonStd.parse_value f32_of_decimal (S fuel) depth (int_literal_text neg ds ++ sep :: rest)
       = Some (JInt (int_literal_value neg ds), sep :: rest).
@@ -82,7 +85,7 @@ Qed.
 Check int_literal_eq :
   forall f32_parse f32_of_decimal neg ds sep rest fuel depth,
     i32_literal neg ds -> is_separator sep = true ->
-    Tokenizer.read_number f32_parse (tok_new (int_literal_text neg ds ++ sep :: rest))
+    TokenizerCore.read_number f32_parse (tok_new (int_literal_text neg ds ++ sep :: rest))
       = (IOk (NInt (int_literal_value neg ds)), mkTok rest (Some sep) true)
     /\ JsonStd.parse_value f32_of_decimal (S fuel) depth (int_literal_text neg ds ++ sep :: rest)
       = Some (JInt (int_literal_value neg ds), sep :: rest).
@@ -91,27 +94,59 @@ Print Assumptions int_literal_eq.
 (* (4) refuted number forms (no compiler emits them) *)
 Theorem neg_zero_refuted :
   forall f32_parse f32_of_decimal,
-    fst (Tokenizer.read_number f32_parse (tok_new (T "-0,"))) = IOk (NInt 0)
+    fst (TokenizerCore.read_number f32_parse (tok_new (T "-0,"))) = IOk (NInt 0)
     /\ JsonStd.parse_json f32_of_decimal (T "-0") = Some (JFloat f32_neg_zero_bits).
 Proof. exact neg_zero_differs. Qed.
 Check neg_zero_refuted :
   forall f32_parse f32_of_decimal,
-    fst (Tokenizer.read_number f32_parse (tok_new (T "-0,"))) = IOk (NInt 0)
+    fst (TokenizerCore.read_number f32_parse (tok_new (T "-0,"))) = IOk (NInt 0)
     /\ JsonStd.parse_json f32_of_decimal (T "-0") = Some (JFloat f32_neg_zero_bits).
 Print Assumptions neg_zero_refuted.
 
 Theorem int_out_of_range_refuted :
   forall f32_parse f32_of_decimal,
-    (forall z, fst (Tokenizer.read_number f32_parse (tok_new (T "2147483648,"))) <> IOk (NInt z))
+    (forall z, fst (TokenizerCore.read_number f32_parse (tok_new (T "2147483648,"))) <> IOk (NInt z))
     /\ JsonStd.parse_json f32_of_decimal (T "2147483648") = Some (JInt 2147483648)
     /\ in_i32 2147483648 = false.
 Proof. exact int_out_of_range_differs. Qed.
 Check int_out_of_range_refuted :
   forall f32_parse f32_of_decimal,
-    (forall z, fst (Tokenizer.read_number f32_parse (tok_new (T "2147483648,"))) <> IOk (NInt z))
+    (forall z, fst (TokenizerCore.read_number f32_parse (tok_new (T "2147483648,"))) <> IOk (NInt z))
     /\ JsonStd.parse_json f32_of_decimal (T "2147483648") = Some (JInt 2147483648)
     /\ in_i32 2147483648 = false.
 Print Assumptions int_out_of_range_refuted.
+
+(* (5) object classification: json_read.rs takes the first key TEST (priority order) the
+   object satisfies, json_read_stream.rs tests the object's FIRST KEY only.  With the
+   regenerated test sequences (equal up to attribute look-ups: ClassifyTie) they decide
+   alike on every object whose first key is its only discriminating key — the form both
+   compilers emit *)
+Theorem object_classification_eq :
+  forall k1 rest,
+    tmem k1 std_priority = true -> (forall k, In k rest -> tmem k std_priority = false) ->
+    std_classify std_priority (k1 :: rest) = Some k1
+    /\ stream_classify stream_priority (k1 :: rest) = Some k1.
+Proof.
+  rewrite <- classify_same_priority. exact (classification_eq_lemma std_priority).
+Qed.
+Check object_classification_eq :
+  forall k1 rest,
+    tmem k1 std_priority = true -> (forall k, In k rest -> tmem k std_priority = false) ->
+    std_classify std_priority (k1 :: rest) = Some k1
+    /\ stream_classify stream_priority (k1 :: rest) = Some k1.
+Print Assumptions object_classification_eq.
+
+(* ... and differently when an attribute key comes first (a document whose keys were
+   sorted): the serde loader sees an external-function divert, the streaming loader the
+   terminating element of the array *)
+Theorem object_classification_key_order_refuted :
+  std_classify std_priority [T "exArgs"; T "x()"] = Some (T "x()")
+  /\ stream_classify stream_priority [T "exArgs"; T "x()"] = None.
+Proof. split; vm_compute; reflexivity. Qed.
+Check object_classification_key_order_refuted :
+  std_classify std_priority [T "exArgs"; T "x()"] = Some (T "x()")
+  /\ stream_classify stream_priority [T "exArgs"; T "x()"] = None.
+Print Assumptions object_classification_key_order_refuted.
 
 (* the arms of the pinned tree (D13): a tab escape is silently dropped *)
 Example d13_pinned_arms_refuted :
@@ -130,3 +165,6 @@ Example string_body_example :
 Proof. split; [vm_compute; discriminate|reflexivity]. Qed.
 Example int_literal_example : i32_literal true [50; 49; 52; 55; 52; 56; 51; 54; 52; 56].
 Proof. exact (proj1 i32_literal_example). Qed.
+Example classification_example :
+  tmem (T "x()") std_priority = true /\ (forall k, In k [T "exArgs"] -> tmem k std_priority = false).
+Proof. split; [reflexivity|]. intros k [<-|[]]. reflexivity. Qed.
